@@ -8,6 +8,7 @@ from vf.spec import bits
 from vf.spec import responses as R
 
 ID = "C06"
+OPT_QUICK_ALL = True      # every partition also in a child interpreter started with -O
 LEVEL = "exploration"
 TECHNIQUE = "deviation-bounded exhaustive enumeration of value dictionaries and of canonical byte strings (independent encoders); both round-trip directions and single-field read-modify-write are compared bit for bit with whole-buffer integer deposit"
 RULE = ("structures with both directions: standard INQUIRY, VPD 80h/83h/86h/B2h/B3h, designators (9 kinds, NAA 2/3/5/6, EUI-64 8/12/16), mode "
@@ -274,7 +275,9 @@ def gen(part, tier):
             # canonical responses only: no trailing buffer space; vpd00 has no builder in the library
             if c[0] == "vpd00":
                 continue
-            if c[0] in ("vpd80", "vpd83", "getlbastatus", "reportluns", "reportpriority") and c[-1] != 0:
+            if c[0] in ("vpd80", "vpd83") and c[2] != 0:          # (these carry an optional content variant after the tail)
+                continue
+            if c[0] in ("getlbastatus", "reportluns", "reportpriority") and c[-1] != 0:
                 continue
             if c[0] == "rtpg" and c[-1] != 0:
                 continue
